@@ -36,6 +36,9 @@ func (r *Re) Sexp() Sexp {
 		return L(A(r.Kind), r.A.Sexp())
 	case "grp":
 		return L(A("grp"), N(int64(r.Idx)), r.A.Sexp())
+	case "fold":
+		// (?i:...) has no node of its own in the model: literals and classes are widened to both cases
+		return foldRe(r.A).Sexp()
 	}
 	panic("bad re kind " + r.Kind)
 }
@@ -94,6 +97,11 @@ func (r *Re) Text() string {
 			return "(?P<" + r.Name + ">" + r.A.Text() + ")"
 		}
 		return "(" + r.A.Text() + ")"
+	case "fold":
+		if r.Neg { // the flag written in front of the whole expression
+			return "(?i)" + r.A.Text()
+		}
+		return "(?i:" + r.A.Text() + ")"
 	}
 	panic("bad re kind")
 }
@@ -206,4 +214,44 @@ func (r *Re) nullable() bool {
 		return r.A.nullable()
 	}
 	return false
+}
+
+// foldRe is the case-insensitive reading of an expression over ASCII: a letter matches both its cases,
+// a class is closed under case swapping (then negated, if it is a negated class).
+func foldRe(r *Re) *Re {
+	swap := func(c byte) byte {
+		switch {
+		case c >= 'a' && c <= 'z':
+			return c - 32
+		case c >= 'A' && c <= 'Z':
+			return c + 32
+		}
+		return c
+	}
+	switch r.Kind {
+	case "chr":
+		if swap(r.C) == r.C {
+			return r
+		}
+		return &Re{Kind: "cls", Ranges: [][2]byte{{r.C, r.C}, {swap(r.C), swap(r.C)}}}
+	case "cls":
+		out := &Re{Kind: "cls", Neg: r.Neg, Ranges: append([][2]byte{}, r.Ranges...)}
+		for _, rg := range r.Ranges {
+			for c := int(rg[0]); c <= int(rg[1]); c++ {
+				if s := swap(byte(c)); s != byte(c) {
+					out.Ranges = append(out.Ranges, [2]byte{s, s})
+				}
+			}
+		}
+		return out
+	case "seq", "alt":
+		return &Re{Kind: r.Kind, A: foldRe(r.A), B: foldRe(r.B)}
+	case "star", "plus", "opt":
+		return &Re{Kind: r.Kind, A: foldRe(r.A)}
+	case "grp":
+		return &Re{Kind: "grp", Idx: r.Idx, Name: r.Name, A: foldRe(r.A)}
+	case "fold":
+		return foldRe(r.A)
+	}
+	return r
 }
